@@ -209,6 +209,20 @@ pub fn judge(payload: &[u8], full: bool) -> Verdict {
     let mut problems = vec![];
     let mut muxer_problem = None;
     if let Some((_, _, rpx)) = &reference {
+        // the ALPH form: the same stream without its 5 header bytes, dimensions supplied by the caller (implicit_dimensions = true);
+        // an alpha plane is the GREEN channel of the decoded image, so that is what is compared
+        if payload.len() > 5 {
+            let p = payload[5..].to_vec();
+            match catch(move || image_webp::verif::vp8l_decode(&p, w as u16, h as u16, true)) {
+                Ok(Ok(b)) => {
+                    if let Some(i) = (0..(w * h) as usize).find(|&i| b.get(i * 4 + 1) != rpx.get(i * 4 + 1)) {
+                        problems.push(("alph_implicit".into(), format!("alpha (green) of pixel {} is {:?}, reference {:?}", i, b.get(i * 4 + 1), rpx.get(i * 4 + 1))));
+                    }
+                }
+                Ok(Err(e)) => problems.push(("alph_implicit".into(), format!("valid stream rejected in its ALPH form: {e}"))),
+                Err(pn) => problems.push(("alph_implicit".into(), format!("PANIC {}", pn.replace('\n', " ")))),
+            }
+        }
         let mut check = |name: &str, d: &Dec| {
             if let Some(what) = disagree(d, w, h, rpx) {
                 problems.push((name.to_string(), what));
